@@ -190,7 +190,10 @@ def set_enabled(ui_json: dict, parameter: str, value: bool):
         if parameters:
             is_group_optional = True
             if parameters[0] == parameter:
-                for form in group.values():
+                for name, form in group.items():
+                    if value and name != parameter and form.get("optional", False):
+                        # an optional member keeps its own choice in an enabled group
+                        continue
                     form["enabled"] = value
 
     if not is_group_optional and "dependency" in ui_json[parameter]:
